@@ -72,7 +72,7 @@ func cmdRun(args []string) {
 			continue
 		}
 		fn := P.Funcs[k]
-		if len(fn.Blocks) == 0 || inPlaceClosure(fn) {
+		if len(fn.Blocks) == 0 || inPlaceClosure(fn) || P.skipped(fn) != "" {
 			continue
 		}
 		fns = append(fns, fn)
